@@ -151,7 +151,11 @@ fn run_case<I: Inst>(sink: &mut Sink, id: &str, ops: &mut dyn FnMut(&I, usize) -
     // ---- quiescence: every remaining sleeper polls once more
     if !panicked {
         let rest: Vec<Slp> = std::mem::take(&mut slp);
-        for s in rest {
+        let mut rest_flags: Vec<bool> = vec![false];
+        for mut s in rest {
+            if rest_flags[0] {
+                s.others_polled = true;
+            }
             let toks: Vec<&str> = s.op.split(' ').collect();
             sink.pending(&s.op);
             let res = match catch(|| inst.apply(&toks, &wk)) {
@@ -163,6 +167,10 @@ fn run_case<I: Inst>(sink: &mut Sink, id: &str, ops: &mut dyn FnMut(&I, usize) -
             sink.line(&s.op, &format!("{} wakes={}", res, ws));
             if res == "PANIC" {
                 break;
+            }
+            // this re-poll is itself a poll by another task as far as the remaining sleepers are concerned
+            for later in rest_flags.iter_mut() {
+                *later = true;
             }
             if res != "pending" {
                 let class = if s.others_polled { "multi-task" } else if s.changed { "waker-changed" } else { "plain" };
@@ -429,14 +437,14 @@ impl Inst for OpenI {
                 if op[3] == "0" {
                     let mut f = self.e.ds.open_bi(&self.e.params);
                     poll_tok(Pin::new(&mut f).poll(&mut cx), |v| match v {
-                        Ok(Some((sid, _))) => format!("ready:{}", sid.id() >> 2),
+                        Ok(Some((sid, _))) => format!("ready:{}", sid.id()),
                         Ok(None) => "done".into(),
                         Err(_) => "err".into(),
                     })
                 } else {
                     let mut f = self.e.ds.open_uni(&self.e.params);
                     poll_tok(Pin::new(&mut f).poll(&mut cx), |v| match v {
-                        Ok(Some((sid, _))) => format!("ready:{}", sid.id() >> 2),
+                        Ok(Some((sid, _))) => format!("ready:{}", sid.id()),
                         Ok(None) => "done".into(),
                         Err(_) => "err".into(),
                     })
